@@ -42,6 +42,7 @@ class Scenario:
         self.universe = universe
         self.tags = set(tags)
         self.thresholds = thresholds       # lowered (_IN_SQL_MAX_LENGTH, _MAX_CHUNK_ITERATE_LENGTH) or None
+        self.fault_kinds = None            # restrict C17's fault positions to these call kinds (None = all)
 
     def key(self):
         return {'name': self.name, 'setup': self.setup, 'op': self.op, 'config': self.config, 'thresholds': self.thresholds}
@@ -133,6 +134,13 @@ def scenarios(tier: str):
     out.append(Scenario('pack-lowIN@all-loose', PRE['all-loose'], ('pack', 'YES', True, True), universe=universe5(), tags=('quick',), thresholds=(2, 9500)))
     out.append(Scenario('delete-lowIN@packed-holes', PRE['packed-holes'], ('delete', (1, 3, 0)), universe=universe5(), tags=('quick',), thresholds=(1, 9500)))
     out.append(Scenario('import-lowIN@partial-pack', PRE['partial-pack'], ('import', (N, 0, 3, 2), True, 20, 'other'), universe=universe5(), tags=(), thresholds=(2, 1)))
+    # one direct-to-pack call storing more than a thousand new objects (any internal "every N rows" batching is crossed); only for
+    # the fault check, and only the calls after the data has been handed over are faulted (there are > 1000 write calls)
+    big = Scenario('topack-1200-objects@empty', [], ('topack', tuple(range(5, 1205)), False, False, True),
+                   config={'pack_size_target': 4 * 1024 ** 3}, universe=universe5() + [b'obj-%05d' % i for i in range(1200)],
+                   tags=('quick', 'faults-only'))
+    big.fault_kinds = {'f.flush', 'f.close.w', 'os.fsync', 'sql.commit', 'os.remove', 'fcntl'}
+    out.append(big)
     out.append(Scenario('clean@uncommitted-rows', PRE['uncommitted-rows'], ('clean', False), universe=universe5(), tags=('quick', 'uncommitted')))
     out.append(Scenario('pack@uncommitted-rows', PRE['uncommitted-rows'], ('pack', 'NO', True, True), universe=universe5(), tags=('uncommitted',)))
     out.append(Scenario('add-damaged-truncated-copy@mixed', PRE['mixed'] + [('damage', 2)], ('adds', 2), universe=universe5(), tags=('quick', 'damaged')))
@@ -158,6 +166,8 @@ def scenarios(tier: str):
         for cfg_name, cfg in (('p0-sha1', {'loose_prefix_len': 0, 'hash_type': 'sha1'}), ('bigpack-zlib9', {'pack_size_target': 4 * 1024 ** 3, 'compression_algorithm': 'zlib+9'}),
                               ('p3-target60', {'loose_prefix_len': 3, 'pack_size_target': 60})):
             for s in out:
+                if 'faults-only' in s.tags:
+                    continue
                 extra.append(Scenario(f'{s.name}[{cfg_name}]', s.setup, s.op, config=cfg, universe=s.universe, tags=s.tags, thresholds=s.thresholds))
         out += extra
     return out
